@@ -1,7 +1,7 @@
 package constraints
 
 type Integer interface {
-	~int8 | ~int16 | ~int32 | int | ~int64 |
+	~int8 | ~int16 | ~int32 | ~int | ~int64 |
 		~uint8 | ~uint16 | ~uint32 | ~uint | ~uint64
 }
 
